@@ -30,7 +30,7 @@ from lib import core, gen, oracle, graphcap
 
 EXTRACTORS = []
 # further property file of C08 (work package c08): Props/C08b.lean is built and audited with C08
-EXTRA_PROPS = ["C08b"]
+EXTRA_PROPS = ["C08b", "C08c"]
 BACKENDS = [None, "numpy", "numpy.numpylike", "numpy.einsum"]
 RELS = ["R1", "R2", "R3", "R4", "R5", "R6"]
 LEAN_EW = ("add", "subtract", "multiply", "maximum", "minimum")
@@ -301,7 +301,7 @@ def t_permute_output(call, args, solved, trng):
 
 
 def t_regroup(call, args, solved, trng):
-    if "..." in call["desc"] or "+" in call["desc"]:
+    if "..." in call["desc"] or ("+" in call["desc"] and not call.get("regroup_concat")):
         raise Skip("ellipsis/concatenation")
     if solved is None:
         raise Skip("no solved expressions")
@@ -409,6 +409,55 @@ def bracket_order_tie(ctx, call, args, res1, solved1, backend, tseed):
                 ctx.tie_broken("correspondence:model-vs-einx", f"bracket order: einx and the Lean denotation differ on {call['op']} {call['desc']!r} / {c2['desc']!r} shapes={call['shapes']}")
 
 
+def dot_operand_order_tie(ctx, call, args, res1, solved1, backend, tseed):
+    """Tie for Props/C08c `denote_dot_permute_input`: permute *all* root dimensions of one operand of a dot -- the
+    separately bracketed (contracted) ones included, so that the contracted axes are enumerated in another order -- and
+    transpose that operand; einx and the Lean denotation (Denote.denoteDot) must both return the same result.  Like the
+    reduce-bracket-order tie this goes beyond the property's text (R2 keeps bracketed axes in order): a difference is a
+    broken tie, not a violation by itself."""
+    if call["family"] != "dot" or "..." in call["desc"] or "+" in call["desc"]:
+        return
+    ins, outs = parse_desc(call["desc"])
+    if outs is None or len(ins) != len(args):
+        return
+    cands = [i for i, e in enumerate(ins) if len(root_dims(e)) == np.asarray(args[i]).ndim
+             and sum(1 for d in root_dims(e) if not movable(d)) >= 2]
+    if not cands:
+        return
+    trng = random.Random(tseed ^ 0x2545F491)
+    i = trng.choice(cands)
+    dims = root_dims(ins[i])
+    perm = list(range(len(dims)))
+    trng.shuffle(perm)
+    if [p for p in perm if not movable(dims[p])] == sorted(p for p in perm if not movable(dims[p])):
+        perm = perm[::-1]      # reversed: the bracketed dimensions change their relative order
+    ins2 = list(ins)
+    ins2[i] = " ".join(dims[p] for p in perm)
+    c2 = dict(call)
+    c2["desc"] = join_desc(ins2, outs)
+    c2["shapes"] = [tuple(np.transpose(np.zeros(s), perm).shape) if j == i else s for j, s in enumerate(call["shapes"])]
+    a2 = [np.transpose(np.asarray(a), perm) if j == i else a for j, a in enumerate(args)]
+    try:
+        res2, solved2 = run_call(c2, a2, backend)
+    except Exception as e:
+        ctx.count(f"dot-operand-order:raised:{type(e).__name__}")
+        return
+    ctx.count("dot-operand-order")
+    ctx.extra["dot_operand_order_cases"] = ctx.extra.get("dot_operand_order_cases", 0) + 1
+    if not same_all(res2, res1):
+        ctx.tie_broken("correspondence:dot-operand-order",
+                       f"einx.dot({call['desc']!r}) vs ({c2['desc']!r}) with operand {i} transposed (perm {perm}) differ; shapes={call['shapes']} backend={backend}")
+    if ctx.driver_ok:
+        m1 = lean_denote(ctx, call, solved1, args)
+        m2 = lean_denote(ctx, c2, solved2, a2)
+        if m1 is not None and m2 is not None:
+            ctx.count("dot-operand-order:model")
+            if not same_all(m2, m1):
+                ctx.tie_broken("correspondence:model-relation", f"dot operand order: the Lean denotation differs on dot {call['desc']!r} vs {c2['desc']!r} operand {i} perm {perm}")
+            if not (same_all(m1, res1) and same_all(m2, res2)):
+                ctx.tie_broken("correspondence:model-vs-einx", f"dot operand order: einx and the Lean denotation differ on dot {call['desc']!r} / {c2['desc']!r} shapes={call['shapes']} backend={backend}")
+
+
 def check_pair(ctx, rel, call, args, backend, tseed, model=True):
     """Evaluate one of R1-R4 on a base call.  Returns None (holds / not applicable -> Skip raised) or a failure dict."""
     import einx
@@ -421,6 +470,7 @@ def check_pair(ctx, rel, call, args, backend, tseed, model=True):
         raise Skip("base call raised " + type(e).__name__)
     if rel == "R2" and model:
         bracket_order_tie(ctx, call, args, res1, solved1, backend, tseed)
+        dot_operand_order_tie(ctx, call, args, res1, solved1, backend, tseed)
     c2, a2, post, info = TRANSFORMS[rel](call, args, solved1, trng)
     try:
         res2, solved2 = run_call(c2, a2, backend)
@@ -719,6 +769,11 @@ def directed_dot_calls():
             ("a [b c], [c b] d -> a d", [(2, 2, 2), (2, 2, 3)]),
             ("e c a b, b e d c -> e a d", [(2, 2, 3, 2), (2, 2, 1, 2)]),
             ("[b] a [c], [c] [b] -> a", [(3, 2, 3), (3, 3)]),
+            # separately bracketed contracted axes of equal length in both operands, in different orders (C08c
+            # denote_dot_permute_input: R2 moves the un-bracketed axes, the dot-operand-order tie moves all of them)
+            ("a [b] [c], [c] d [b] -> a d", [(2, 2, 2), (2, 3, 2)]),
+            ("[b] a [c], [c] [b] d -> d a", [(2, 3, 2), (2, 2, 2)]),
+            ("a [b], [b] [c], [c] d -> a d", [(2, 2), (2, 2), (2, 3)]),
         ]:
             out.append({"op": "dot", "family": "dot", "desc": desc, "shapes": shapes, "kwargs": {}, "note": ["directed-dot"], "backend": backend})
     return out
@@ -740,6 +795,31 @@ def directed_reduce_calls():
         ]:
             kw = {"a": 2} if desc.startswith("(") else {}
             out.append({"op": op, "family": "reduce", "desc": desc, "shapes": [shape], "kwargs": kw, "note": ["directed-reduce"], "backend": None})
+    return out
+
+
+def directed_concat_calls():
+    """Deterministic calls for the laws of Props/C08c that had no real-call counterpart: `id` with a concatenation in the
+    input and/or the output whose siblings are permuted (R2/R3; one concatenation per expression, so the enumeration of
+    the virtual tensors keeps its order) or wrapped in parentheses together with the concatenation (R4, `regroup_concat`),
+    and elementwise operations with three operands one of which is permuted (R2).  The id calls also run on the Lean
+    denotation (`Denote.denoteId` and its functional form `denoteIdFunG`)."""
+    out = []
+    for desc, shapes, kw in [
+        ("a (b + c) d -> d (b + c) a", [(2, 3, 2)], {"b": 1}),
+        ("a (b + c) d -> a b d, d c a", [(2, 3, 2)], {"b": 1}),
+        ("a c, b c -> c (a + b)", [(2, 2), (1, 2)], {}),
+        ("d a (b + c) -> (b + c) a d", [(2, 4, 4)], {"b": 2}),      # a sibling as long as the concatenation, equal blocks
+    ]:
+        out.append({"op": "id", "family": "id", "desc": desc, "shapes": shapes, "kwargs": kw, "note": ["directed-concat"],
+                    "backend": None, "regroup_concat": True})
+    for backend in ("numpy.numpylike", "numpy.einsum", None):
+        for op, desc, shapes in [
+            ("add", "a b c, c b, a -> c a b", [(2, 2, 3), (3, 2), (2,)]),
+            ("multiply", "a (b c) d, d b, c a -> (d a) c b", [(2, 2, 3), (3, 2), (1, 2)]),
+        ]:
+            out.append({"op": op, "family": "elementwise", "desc": desc, "shapes": shapes, "kwargs": {"c": 1} if "(b c)" in desc else {},
+                        "note": ["directed-nary"], "backend": backend})
     return out
 
 
@@ -800,8 +880,8 @@ def run(ctx):
                 ctx.violation(sig_pair(fail), fail)
         if len(ctx.violations) >= 4:
             break
-    for call in directed_dot_calls() + directed_reduce_calls():
-        for rel in ("R2", "R3"):
+    for call in directed_dot_calls() + directed_reduce_calls() + directed_concat_calls():
+        for rel in (("R2", "R3", "R4") if call.get("regroup_concat") else ("R2", "R3")):
             args = gen.make_args(call, rng, "rand")
             tseed = rng.randrange(1 << 30)
             try:
